@@ -41,7 +41,9 @@ META = {
 }
 
 NT = 48
-PROBE_FILES = {'zz_verif_c11_test.go': 'c11/probe_test.go', 'zz_verif_c11_targets_test.go': 'c11/targets_test.go'}
+PROBE_FILES = {'zz_verif_c11_test.go': 'c11/probe_test.go', 'zz_verif_c11_targets_test.go': 'c11/targets_test.go',
+               'zz_verif_c11_variadic_test.go': 'c11/variadic_test.go'}
+NV = 6   # variadic steady targets: locations NT..NT+5 with 0,1,2,0,1,2 leading fixed parameters
 
 
 # ------------------------------------------------------------------ generator
@@ -93,6 +95,14 @@ def gen_round(rng, tier, big=False):
     for f in steady:
         kind = rng.choice(['ret', 'cb', 'cbo', 'cbo', 'tab', 'tab'])
         segs.append(f'S mock {f} {kind} {1 + rng.below(90)} {1 if kind == "cbo" else 0}')
+    nvar = 0
+    if nc >= 2 and rng.below(5) < 3:   # variadic steady targets with When tables keyed on the variadic elements
+        r0, cntv = rng.below(NV), 1 + rng.below(3)
+        vs = [NT + (r0 + j) % NV for j in range(cntv)]
+        nvar = len(vs)
+        for f in vs:
+            segs.append(f'S mock {f} tab {100 + rng.below(800)} 0')
+        steady = steady + vs
     kinds = {'mock': 0, 'chk': 0, 'reset': 0, 'ret': 0, 'tab': 0, 'cb': 0, 'cbo': 0, 'restub': 0}
     for i in range(nb):
         name = f'B{i + 1}'
@@ -141,7 +151,7 @@ def gen_round(rng, tier, big=False):
         nc = 0
     segs.append(f'N {neigh}')
     line = f'c11.round y={y} d={dbg} K={k} | ' + ' | '.join(segs)
-    return line, {'nb': nb, 'nc': nc, 'neigh': neigh, 'mode': mode, 'kinds': kinds, 'debug': dbg}
+    return line, {'nb': nb, 'nc': nc, 'neigh': neigh, 'mode': mode, 'kinds': kinds, 'debug': dbg, 'variadic': nvar}
 
 
 # ------------------------------------------------------------------ independent expectation (the property, not the model)
@@ -445,6 +455,7 @@ def run(tier):
             'callers_max': max((m['nc'] for m in metas), default=0), 'callers_total': sum(m['nc'] for m in metas),
             'layout_modes': {k: sum(1 for m in metas if m['mode'] == k) for k in sorted({m['mode'] for m in metas})},
             'op_kinds': kinds, 'rounds_with_debug_logging': sum(1 for m in metas if m.get('debug')),
+            'rounds_with_variadic_steady_tables': sum(1 for m in metas if m.get('variadic')), 'variadic_steady_targets_total': sum(m.get('variadic', 0) for m in metas),
             'builder_ops_total': tot('ops'), 'builder_ops_overlapping_another_builder': tot('overlap'),
             'same_page_pairs(target, other used location)': tot('share'), 'targets_whose_13_bytes_cross_a_page': tot('cross'),
             'race_reports': tot('races'), 'text_kb_diffed_per_round': int(ext[0].get('textkb', 0)) if ext else 0,
